@@ -54,6 +54,7 @@ type obj struct {
 func body(w *run.Worker) {
 	ctx := context.Background()
 	w.Cases("quarantine", w.N(720, 12000), func(c *run.Case) { one(ctx, w, c) })
+	w.Cases("daemon", w.N(8, 160), func(c *run.Case) { daemonCase(w, c) })
 }
 
 func one(ctx context.Context, w *run.Worker, c *run.Case) {
